@@ -136,6 +136,7 @@ VARIANTS = [
     V("planner guard loses 'not any_by_dask'", ("C12",), "R-LAZY", "core.py", '        if (not any_by_dask and method is None) or method == "cohorts":', '        if method is None or method == "cohorts":', must_mention="find_group_cohorts"),
     V("blockwise rechunk with dask labels", ("C12",), "R-LAZY", "core.py", 'and by_.ndim == 1 and not any_by_dask:', 'and by_.ndim == 1:', must_mention="rechunk_for_blockwise"),
     V("all-fill result built with np.full", ("C12",), "R-LAZY", "core.py", '            reindexed = np.full_like(array, fill_value, shape=shape)', '            reindexed = np.full(shape, fill_value, dtype=array.dtype)', must_mention="reindex_"),
+    V("expected groups computed from dask labels", ("C12",), "R-LAZY", "core.py", '    if is_duck_dask_array(by):\n        raise ValueError("Please provide expected_groups if not grouping by a numpy array.")\n', '', must_mention="_get_expected_groups"),
     V("twin: guard moved into a local flag", ("C12",), "", "core.py", '        if (not any_by_dask and method is None) or method == "cohorts":', '        plan_from_labels = (not any_by_dask and method is None) or method == "cohorts"\n        if plan_from_labels:', expect="silent"),
     # ---------------- C19 rules
     V("TypeError raised on an API path", ("C19",), "R-RAISE", "core.py", '        raise ValueError(f"Cannot reindex to a multidimensional array: {to}")', '        raise TypeError(f"Cannot reindex to a multidimensional array: {to}")', must_mention="reindex_"),
